@@ -155,6 +155,7 @@ def run(ctx):
     for spec in graphs.family_specs(frng, sizes=(4, 7, 12) if quick else (4, 7, 12, 40, 150),
                                     ecls=graphs.ECLS_DU, vcls=graphs.VCLS_MIX):
         base.append(spec)
+    base += graphs.hub_specs(frng, fanouts=(129, 260))
     n_random = 2500 if quick else 12000
     k = 0
     for n in range(len(base) * 6 + n_random):
